@@ -332,3 +332,6 @@ func copyTree(src, dst string) error {
 	}
 	return nil
 }
+
+// VerifSnapshot forwards to the server's snapshot accessor.
+func (s *Server) VerifSnapshot() *server.VerifSnap { return s.S.VerifSnapshot() }
